@@ -585,7 +585,7 @@ def _tree_norm(s):
     return s
 
 
-def tree_effects(M, T, entry, exits, extra=None):
+def tree_effects(M, T, entry, exits, extra=None, track=None, guard_extra=()):
     """per acyclic path entry -> exits: (guards on the trees/cursors, ordered effects on trees, cursors, slots)"""
     from .paths import acyclic_paths, PathOriginsOv
     b, fb, cfg = M.b, M.fb, M.cfg
@@ -593,6 +593,9 @@ def tree_effects(M, T, entry, exits, extra=None):
     ov.update({t: ("role", n) for t, n in T.names.items()})
     if T.state is not None:
         ov[T.state] = ("role", "STATE")
+    track = track or {}
+    for l_, n_ in track.items():
+        ov[l_] = ("role", n_)
     rows = []
     for p in acyclic_paths(cfg, entry, exits, 4000):
         org = PathOriginsOv(b, fb, p, overrides=ov)
@@ -613,6 +616,8 @@ def tree_effects(M, T, entry, exits, extra=None):
                         effects.append("%s:=NODE(%s)" % (T.cur[pl["l"]], _tree_norm(r.of_origin(org.of_rvalue(s["r"], bi, si)))))
                 elif not pl["proj"] and T.state is not None and pl["l"] == T.state:
                     effects.append("STATE:=%s" % _tree_norm(r.of_origin(org.of_rvalue(s["r"], bi, si))))
+                elif not pl["proj"] and pl["l"] in track:
+                    effects.append("%s:=%s" % (track[pl["l"]], _tree_norm(r.of_origin(org.of_rvalue(s["r"], bi, si)))))
                 elif not pl["proj"] and pl["l"] in T.names:
                     effects.append("%s:=%s" % (T.names[pl["l"]], _tree_norm(r.of_origin(org.of_rvalue(s["r"], bi, si)))))
                 elif "deref" in pl["proj"] and "Area" in b.lty(pl["l"]):
@@ -624,7 +629,7 @@ def tree_effects(M, T, entry, exits, extra=None):
                     effects.append(_tree_norm(e))
             if i + 1 < len(p) and t["k"] == "switch":
                 lab = ev.generic_edge(bi, t, p[i + 1])
-                if lab and any(k in lab for k in ("LEAF", "AREA", "STATE")):
+                if lab and any(k in lab for k in ("LEAF", "AREA", "STATE") + tuple(track.values()) + tuple(guard_extra)):
                     guards.append(_tree_norm(lab))
         rows.append((tuple(sorted(set(guards))), tuple(sorted(effects))))
     return rows
@@ -669,6 +674,119 @@ def _discr_two_way(lab):
     return lab
 
 
+class _SylUnknown(Exception):
+    pass
+
+
+def _syl_eval(o, env, roles):
+    """finite-domain evaluation for the syllable handler: env gives the pending kind and the current character"""
+    from . import evalo
+    r = None
+    try:
+        r = roles.of_origin(o)
+    except Exception:
+        pass
+    if r == "KIND":
+        return env["kind"]
+    if r == "ELEM<ENUMERATE(CHARS(CODE))>.1":
+        return ord(env["ch"])
+    k = o[0]
+    if k == "const":
+        return o[2]
+    if k == "cast":
+        v = _syl_eval(o[3], env, roles)
+        return v
+    if k == "bin":
+        a, b_ = _syl_eval(o[2], env, roles), _syl_eval(o[3], env, roles)
+        if isinstance(a, str) and len(a) == 1:
+            a = ord(a)
+        if isinstance(b_, str) and len(b_) == 1:
+            b_ = ord(b_)
+        if not (isinstance(a, int) and isinstance(b_, int)):
+            raise _SylUnknown("operands %r %r" % (a, b_))
+        return {"Add": a + b_, "Sub": a - b_, "Mul": a * b_, "Div": a // b_ if b_ else 0, "Eq": a == b_, "Ne": a != b_, "Lt": a < b_, "Le": a <= b_, "Gt": a > b_, "Ge": a >= b_}[o[1]]
+    if k == "un" and o[1] == "Not":
+        return not _syl_eval(o[2], env, roles)
+    if k in ("ref", "deref", "clone"):
+        return _syl_eval(o[-1], env, roles)
+    if k == "call":
+        sn = o[1].rsplit("::", 1)[-1]
+        if sn in ("find", "contains", "position") and len(o[2]) == 2:
+            hay, nee = _syl_eval(o[2][0], env, roles), _syl_eval(o[2][1], env, roles)
+            if isinstance(hay, str) and isinstance(nee, int):
+                i = hay.find(chr(nee))
+                if sn == "contains":
+                    return i >= 0
+                return ("opt", None if i < 0 else len(hay[:i].encode("utf-8")))
+        if sn in ("eq", "ne") and len(o[2]) == 2:
+            a, b_ = _syl_eval(o[2][0], env, roles), _syl_eval(o[2][1], env, roles)
+            return (a == b_) if sn == "eq" else (a != b_)
+        raise _SylUnknown("call %s" % o[1])
+    if k == "discr":
+        v = _syl_eval(o[1], env, roles)
+        if isinstance(v, tuple) and v[0] == "opt":
+            return 0 if v[1] is None else 1
+        raise _SylUnknown("discr")
+    if k == "some":
+        v = _syl_eval(o[1], env, roles)
+        if isinstance(v, tuple) and v[0] == "opt" and v[1] is not None:
+            return v[1]
+        raise _SylUnknown("some of None")
+    raise _SylUnknown("origin %s" % k)
+
+
+def _syllable_table(M, T, entry):
+    """(pending kind, character) -> set of effect tuples on KIND / DOT / STATE along the feasible paths"""
+    from .paths import acyclic_paths, PathOriginsOv, simplify
+    b, fb, cfg = M.b, M.fb, M.cfg
+    ov = {T.state: ("role", "STATE"), M.kind[1]: ("role", "KIND"), M.dot[1]: ("role", "DOT")}
+    names = {T.state: "STATE", M.kind[1]: "KIND", M.dot[1]: "DOT"}
+    paths = acyclic_paths(cfg, entry, [M.head], 4000)
+    out, problems = {}, []
+    for kind in (6, 7, 8):
+        for ch in ["엉", "앙", "앗", "읏", "읍", "윽", "어", "a", "형"]:
+            env = {"kind": kind, "ch": ch}
+            rows = set()
+            for p in paths:
+                org = PathOriginsOv(b, fb, p, overrides=ov)
+                roles = Roles(b, fb, param_roles={1: "CODE"}, org=org)
+                ok = True
+                try:
+                    for i, bi in enumerate(p[:-1]):
+                        t = b.blocks[bi]["term"]
+                        if t["k"] != "switch":
+                            continue
+                        try:
+                            v = _syl_eval(simplify(org.of_operand(t["x"], bi, "t")), env, roles)
+                        except _SylUnknown:
+                            continue  # a condition on something else (is the character a Hangul syllable, ...)
+                        v = int(v) if isinstance(v, bool) else v
+                        if not isinstance(v, int):
+                            continue
+                        taken = None
+                        for a_, bb in t["arms"]:
+                            if int(a_) == v:
+                                taken = bb
+                        if taken is None:
+                            taken = t["otherwise"]
+                        if taken != p[i + 1]:
+                            ok = False
+                            break
+                    if not ok:
+                        continue
+                    eff = []
+                    for bi in p:
+                        for si, st in enumerate(b.blocks[bi]["stmts"]):
+                            if st["k"] == "assign" and not st["p"]["proj"] and st["p"]["l"] in names:
+                                val = _syl_eval(simplify(org.of_rvalue(st["r"], bi, si)), env, roles)
+                                eff.append("%s:=%s" % (names[st["p"]["l"]], int(val) if not isinstance(val, tuple) else val))
+                    rows.add(tuple(sorted(eff)))
+                except _SylUnknown as e:
+                    problems.append("%d/%s: %s" % (kind, ch, e))
+            out[(kind, ch)] = rows
+    return out, problems
+
+
 def rule_tree(ctx, R):
     """the right-nested tree construction, handler by handler, as decision tables over path-precise effects"""
     fb = ctx.fb
@@ -707,6 +825,25 @@ def rule_tree(ctx, R):
         rows = {(tuple(g for g in gs if "STATE" in g), tuple(e for e in es if e.startswith("STATE") or "AREA" in e or "LEAF" in e)) for gs, es in tree_effects(M, T, entries["dots"][0], [M.head])}
         wantd = {(("EQ[K0,STATE]=1",), ("STATE:=STATE",)), (("EQ[K0,STATE]=0",), ("STATE:=STATE",))}
         R.check(rows == wantd, "tree:dots", "a dot or ellipsis leaves the parser state, the trees and the cursors as they are (before the area: counted; after it began: ignored)", None, {"unexpected": sorted(map(str, rows - wantd)), "missing": sorted(map(str, wantd - rows))})
+    # inside the syllable part (state 1): an end syllable of the pending kind closes the syllables (kind becomes the
+    # command kind, dots restart at 0, state 0); anything else leaves the parser where it is
+    s1 = None
+    for gb in sorted(M.loop):
+        tt = b.blocks[gb]["term"]
+        if tt["k"] == "switch" and {v for v, _ in tt["arms"]} == {"0", "2"} and len({bb for _, bb in tt["arms"]}) == 1:
+            s1 = tt["otherwise"]
+    if R.anchor(s1 is not None and T.state is not None, "tree:entry:syllables", "the branch for parser state 1 (inside the syllable part)"):
+        got1, problems1 = _syllable_table(M, T, s1)
+        want1 = {}
+        ENDS = {"엉": (6, 0), "앙": (7, 1), "앗": (7, 2), "읏": (8, 3), "읍": (8, 4), "윽": (8, 5)}
+        for kind in (6, 7, 8):
+            for ch in list(ENDS) + ["어", "a", "형"]:
+                if ch in ENDS and ENDS[ch][0] == kind:
+                    want1[(kind, ch)] = {("DOT:=0", "KIND:=%d" % ENDS[ch][1], "STATE:=0")}
+                else:
+                    want1[(kind, ch)] = {("STATE:=1",)}
+        bad = {"%d/%s" % k: sorted(v) for k, v in got1.items() if v != want1.get(k)}
+        R.check(not bad and not problems1, "tree:syllables", "state 1: 엉 closes a 혀-command as kind 0; 앙/앗 close a 하-command as kind 1/2; 읏/읍/윽 close a 흐-command as kind 3/4/5; the dot count restarts and the parser returns to state 0; any other character keeps state 1 (decision table over pending kind x character)", None, {"differs": bad, "undecided": problems1[:4]})
     tables = {}
     for h in ("question", "bang", "heart"):
         if not R.anchor(len(entries.get(h, [])) == 1, "tree:entry:" + h, "the branch of the area state that handles %s" % h):
